@@ -73,7 +73,12 @@ class PlaceholderSubstitutor(CopyMapper):
 
     def __init__(self, substitutions: Mapping[str, Array]) -> None:
         # Ignoring function cache, since we don't support functions anyway
-        super().__init__()
+        #
+        # A substituted-in array may be equal to (but not the same object as)
+        # the placeholder it replaces, e.g. a caller placeholder named like the
+        # parameter placeholder: that is a replacement, not a duplicate created
+        # by mistake.
+        super().__init__(err_on_created_duplicate=False)
         self.substitutions = substitutions
 
     def map_placeholder(self, expr: Placeholder) -> Array:
